@@ -118,6 +118,35 @@ func c15One(caseToks []string) string {
 		}
 		return "dec=ok " + ShowRecords(msg.GetSet().GetRecords())
 	}()
+	// the same field behind an unknown variable-length element, decoded by a collector that
+	// drops unknown elements: the dropped field must be skipped by ITS encoded length and the
+	// element under test must decode exactly as it does alone
+	if strings.HasPrefix(dec, "dec=ok ") && len(buf) > 0 && strings.Contains(sb.String(), " errs=0 ") {
+		dec2 := func() (s string) {
+			defer func() {
+				if r := recover(); r != nil {
+					s = "dec=panic"
+				}
+			}()
+			cp := newCollector(collector.DecodingModeLenientDropUnknown, "tcp")
+			unk := entities.NewInfoElement("", 31000, entities.OctetArray, 54321, entities.VariableLength)
+			if err := cp.VerifAddTemplate(1, 256, []*entities.InfoElement{unk, ie}); err != nil {
+				return "dec=err " + errClass(err)
+			}
+			pre := []byte{5, 1, 2, 3, 4, 5}
+			if len(buf)%2 == 1 {
+				pre = append(append([]byte{255, 1, 4}, make([]byte, 260)...))
+			}
+			msg, err := cp.VerifDecodePacket(dataMsg(1, 256, append(append([]byte{}, pre...), buf...)), "127.0.0.1:1")
+			if err != nil {
+				return "dec=err " + errClass(err)
+			}
+			return "dec=ok " + ShowRecords(msg.GetSet().GetRecords())
+		}()
+		if dec2 != dec {
+			dec += " !behind-a-dropped-field: " + dec2
+		}
+	}
 	return sb.String() + dec
 }
 
